@@ -6,6 +6,7 @@ read-fonts/src/tables.rs (compute_checksum), read-fonts/src/lib.rs (FontRef::new
 -/
 import FontVerif.Model.Sfnt
 import FontVerif.Lemmas.Sfnt
+import FontVerif.Lemmas.SfntBuild
 set_option linter.unusedVariables false
 namespace FontVerif.C06
 open FontVerif FontVerif.Sfnt
@@ -145,5 +146,194 @@ theorem copies_after_add_keep (m : Tables) (t : Nat) (d : Bytes) (srcs : List By
     split
     · exact copy_missing_never_overrides _ _ _ _ hm
     · exact hm
+
+/-! ### the built file
+
+Hypotheses, all explicit:
+* `WFMap m`  — the builder's map invariant (strictly ascending tags: `history_sorted`) and every
+  tag is a `u32`;
+* `Fits m`   — the container's own size limits: fewer than 4096 tables (the `u16` `searchRange`
+  of `SearchRange::compute` traps at 4096) and `fileSize m` = 12 + 16·n + Σ round4(len) < 2^32
+  (`u32` positions);
+* `build m = some f` — `f` is the file `FontBuilder::build` returns. -/
+
+/-- Within the size limits `build` does not trap. -/
+theorem build_total (m : Tables) (hf : Fits m) : ∃ f, build m = some f :=
+  ⟨_, build_eq m hf⟩
+
+/-- The built file has exactly the advertised size: header, directory, padded tables, nothing else. -/
+theorem built_size (m : Tables) (hf : Fits m) (f : Bytes) (hb : build m = some f) :
+    f.length = fileSize m := by
+  rw [build_eq m hf] at hb
+  simp only [Option.some.injEq] at hb
+  subst hb
+  rw [List.length_append, dirOf_length, bodyBytes_length, ents_bodyLen]
+  unfold fileSize; omega
+
+/-- The built file opens (`FontRef::new` succeeds) and announces one record per supplied table. -/
+theorem build_opens (m : Tables) (hw : WFMap m) (hf : Fits m) (f : Bytes) (hb : build m = some f) :
+    openFont f = .ok { data := f, numTables := m.length } :=
+  (built_font m hw hf f hb).2.1
+
+/-- The directory lists exactly the supplied tags, in strictly ascending order. -/
+theorem dir_sorted_exact_tags (m : Tables) (hw : WFMap m) (hf : Fits m) (f : Bytes)
+    (hb : build m = some f) :
+    (records { data := f, numTables := m.length }).map (·.tag) = m.map Prod.fst ∧
+      ((records { data := f, numTables := m.length }).map (·.tag)).Pairwise (· < ·) := by
+  have h := (built_font m hw hf f hb).2.2
+  rw [h, sortedOf_tags m hw.1]
+  exact ⟨rfl, sorted_tags_pairwise m hw.1⟩
+
+/-- `table_data(tag)` on the built file returns exactly the supplied bytes — for `head` of at
+least 12 bytes with bytes 8..12 replaced by some `u32` `adj` (the checksum adjustment), see
+`withAdj` — and `None` for every tag that was not supplied. -/
+theorem table_data_returns (m : Tables) (hw : WFMap m) (hf : Fits m) (f : Bytes)
+    (hb : build m = some f) :
+    ∃ adj, adj < 4294967296 ∧
+      (∀ t d, lookup m t = some d →
+        tableData { data := f, numTables := m.length } t = some (withAdj adj t d)) ∧
+      (∀ t, lookup m t = none → tableData { data := f, numTables := m.length } t = none) := by
+  obtain ⟨hfeq, _, hrecs⟩ := built_font m hw hf f hb
+  refine ⟨adjOf m, by unfold adjOf; exact Nat.mod_lt _ (by omega), ?_, ?_⟩
+  · intro t d h
+    unfold tableData
+    rw [hrecs]
+    simp only [hfeq]
+    exact built_tableData m hw hf t d (lookup_mem m t d h)
+  · intro t h
+    unfold tableData
+    rw [hrecs]
+    apply built_tableData_absent m hw
+    intro hmem
+    obtain ⟨e, he, rfl⟩ := List.mem_map.1 hmem
+    rw [mem_lookup m hw.1 e.1 e.2 he] at h
+    exact absurd h (by simp)
+
+/-- … spelled out: same length; identical bytes unless the table is a `head` of ≥ 12 bytes, and
+then identical outside bytes 8..12. -/
+theorem table_data_same_but_adjustment (adj t : Nat) (d : Bytes) :
+    (withAdj adj t d).length = d.length ∧
+      (¬ (t = TAG_head ∧ 12 ≤ d.length) → withAdj adj t d = d) ∧
+      (withAdj adj t d).take 8 = d.take 8 ∧ (withAdj adj t d).drop 12 = d.drop 12 := by
+  refine ⟨withAdj_length adj t d, ?_, ?_, ?_⟩
+  · intro h; unfold withAdj; rw [if_neg h]
+  · unfold withAdj
+    split
+    · rename_i h; exact take8_splice _ _ _ (by omega)
+    · rfl
+  · unfold withAdj
+    split
+    · rename_i h; exact drop12_splice _ _ _ (by omega) (be4_length adj)
+    · rfl
+
+/-- Every table starts after the directory at a 4-byte aligned offset, lies inside the file
+together with its padding, and the padding bytes are zero. -/
+theorem aligned_zero_padded (m : Tables) (hw : WFMap m) (hf : Fits m) (f : Bytes)
+    (hb : build m = some f) :
+    ∀ r ∈ records { data := f, numTables := m.length },
+      r.offset % 4 = 0 ∧ 12 + 16 * m.length ≤ r.offset ∧
+      r.offset + round4 r.length ≤ f.length ∧
+      (f.drop (r.offset + r.length)).take (round4 r.length - r.length)
+        = zeros (round4 r.length - r.length) := by
+  obtain ⟨hfeq, _, hrecs⟩ := built_font m hw hf f hb
+  intro r hr
+  rw [hrecs] at hr
+  obtain ⟨d, hd, hlen, hcs, hpos, hmod, hend, hsl⟩ := rec_props m hf r hr
+  rw [← hfeq] at hend hsl
+  rw [hlen]
+  refine ⟨hmod, by omega, hend, ?_⟩
+  have hx : (withAdj (adjOf m) r.tag (zeroAdj r.tag d)).length = d.length := by
+    rw [withAdj_length, zeroAdj_length]
+  have hge := round4_ge d.length
+  have e1 : List.drop (r.offset + d.length) f = List.drop d.length (List.drop r.offset f) := by
+    rw [List.drop_drop]
+  rw [e1, List.take_drop]
+  have e2 : d.length + (round4 d.length - d.length) = round4 d.length := by omega
+  rw [e2, hsl, List.drop_left' hx]
+
+/-- Every directory checksum is the checksum of the table the file returns for that tag, with the
+head table's adjustment field zeroed; the directory length is the table's length. -/
+theorem dir_checksums (m : Tables) (hw : WFMap m) (hf : Fits m) (f : Bytes)
+    (hb : build m = some f) :
+    ∀ r ∈ records { data := f, numTables := m.length },
+      ∃ got, tableData { data := f, numTables := m.length } r.tag = some got ∧
+        r.length = got.length ∧ r.checksum = checksum (zeroAdj r.tag got) := by
+  obtain ⟨hfeq, _, hrecs⟩ := built_font m hw hf f hb
+  intro r hr
+  have hr' := hr
+  rw [hrecs] at hr'
+  obtain ⟨d, hd, hlen, hcs, _⟩ := rec_props m hf r hr'
+  refine ⟨withAdj (adjOf m) r.tag d, ?_, ?_, ?_⟩
+  · unfold tableData
+    rw [hrecs]
+    simp only [hfeq]
+    exact built_tableData m hw hf r.tag d hd
+  · rw [withAdj_length]; exact hlen
+  · rw [zeroAdj_withAdj]; exact hcs
+
+/-- With a head table of at least 12 bytes the checksum of the whole file is 0xB1B0AFBA. -/
+theorem whole_file_checksum (m : Tables) (hw : WFMap m) (hf : Fits m) (f : Bytes)
+    (hb : build m = some f) (d : Bytes) (hh : lookup m TAG_head = some d) (hl : 12 ≤ d.length) :
+    checksum f = 0xB1B0AFBA := by
+  rw [build_eq m hf] at hb
+  simp only [Option.some.injEq] at hb
+  subst hb
+  exact whole_checksum m hw.1 d (lookup_mem m _ d hh) hl
+
+/-! ### the hypotheses are satisfiable, and histories produce them -/
+
+/-- every history whose tags are `u32`s yields a well-formed map (so the theorems above apply to
+the result of any sequence of `add_raw` / `copy_missing_tables`, given the size limits) -/
+theorem history_wf_partial (ops : List (Nat × Bytes)) (h : ∀ op ∈ ops, op.1 < 4294967296) :
+    WFMap (addAll ops []) := by
+  refine ⟨?_, ?_⟩
+  · have := history_sorted (ops.map (fun op => Op.add op.1 op.2))
+    unfold runOps at this
+    unfold addAll
+    rw [List.foldl_map] at this
+    exact this
+  · unfold addAll
+    suffices hs : ∀ m : Tables, (∀ e ∈ m, e.1 < 4294967296) →
+        ∀ e ∈ ops.foldl (fun m op => addRaw m op.1 op.2) m, e.1 < 4294967296 from
+      hs [] (by simp)
+    induction ops with
+    | nil => intro m hm; exact hm
+    | cons op rest ih =>
+      intro m hm
+      simp only [List.foldl_cons]
+      apply ih (fun o ho => h o (by simp [ho]))
+      have hop := h op (by simp)
+      unfold addRaw
+      clear ih
+      induction m with
+      | nil => intro e he; simp only [Sfnt.insert, List.mem_singleton] at he; subst he; exact hop
+      | cons x xs ihx =>
+        intro e he
+        simp only [Sfnt.insert] at he
+        split at he
+        · simp only [List.mem_cons] at he
+          rcases he with rfl | rfl | he
+          · exact hop
+          · exact hm _ (by simp)
+          · exact hm _ (by simp [he])
+        · split at he
+          · simp only [List.mem_cons] at he
+            rcases he with rfl | he
+            · exact hop
+            · exact hm _ (by simp [he])
+          · simp only [List.mem_cons] at he
+            rcases he with rfl | he
+            · exact hm _ (by simp)
+            · exact ihx (fun e he => hm e (by simp [he])) e he
+
+/-- non-vacuity: a concrete three-table map (head of 12 bytes, an odd-length table, an empty one)
+satisfies every hypothesis, builds, and the conclusions can be observed on it. -/
+example :
+    let m : Tables := [(0x44534947, [1, 2, 3]), (0x68656164, [0, 1, 2, 3, 4, 5, 6, 7, 8, 9, 10, 11]),
+      (0x7a7a7a7a, [])]
+    WFMap m ∧ Fits m ∧ lookup m TAG_head = some [0, 1, 2, 3, 4, 5, 6, 7, 8, 9, 10, 11] ∧
+      (build m).isSome = true := by
+  refine ⟨⟨by simp [Sorted], by simp⟩, ⟨by simp, by simp [fileSize, bodyLen, round4]⟩, by decide, ?_⟩
+  rw [build_eq _ ⟨by simp, by simp [fileSize, bodyLen, round4]⟩]; rfl
 
 end FontVerif.C06
